@@ -510,6 +510,16 @@ func c29Shipped(args []string) error {
 		jsTexts = append(jsTexts, strings.Repeat("a = 1;\n", k*3)+strings.Repeat("f((a, b) => a + b, async (x) => x / 2, /re/.test(s) ? (y) => y : z);\n", 60))
 		testTexts = append(testTexts, strings.Repeat("decl1(a) ", 100+k*7)+strings.Repeat("eval(4.1 as 2 + 3 + 4 + 5) decl2 ", 40))
 	}
+	// runtime lookaheads started from inside other lookaheads (an arrow function in a parameter default), at varying distances from the
+	// start so that the every-512th-shift poll falls into different depths of lookahead
+	var params []string
+	for i := 0; i < 60; i++ {
+		params = append(params, fmt.Sprintf("b%d", i))
+	}
+	nested := "(a = (" + strings.Join(params, ", ") + ") => 1) => 2;\n"
+	for pad := 150; pad <= 270; pad += 8 {
+		jsTexts = append(jsTexts, strings.Repeat("x;\n", pad)+nested+nested)
+	}
 	// long texts (more than 512 * 64 events), cancelled at a few points only: a parse that ignores the cancellation is seen to
 	// run on for more than 512 shifts. One well-formed, two with a recoverable syntax error every few tokens.
 	long := map[string]bool{}
@@ -536,6 +546,9 @@ func c29Shipped(args []string) error {
 			if long[text] {
 				points = []int{0, 1, 10, 1000, 5000}
 			} else {
+				if ti%stride != 0 {
+					points = append(points, 0) // cancelled before the parse starts
+				}
 				for k := ti % stride; k <= base[1]+1; k += stride {
 					points = append(points, k)
 				}
